@@ -38,7 +38,8 @@ CHECKS = {
         "No clause is assumed; Vec::retain / binary_search_by_key / hash-map std contracts are trusted wrappers, cross-checked by BOUNDED Kani harnesses where possible.",
    note="Trusted: Verus+Z3, vstd specs, opaque stand-ins for JsError/JsString, finite-map model of FxHashMap, std contracts of Vec::retain (R10) and Option::is_none_or. "
         "NOT carried by proof: that compile_* callers respect the allocator protocol (free only owned registers, no use after free); their size behaviour is covered only by the "
-        "side battery (410 programs over 14 construct families, sizes 0..600), which is testing, not proof (DESIGN §4.1).",
+        "side battery (about 580 programs over 19 construct families, sizes 0..600 and 4096..70000, deep nesting in a child process), which is testing, not proof (DESIGN §4.1). "
+        "Two known findings are recorded: the constant-pool limit is cumulative per chunk; nesting 1000+ levels deep aborts the process with a stack overflow.",
    technique="contract-based deductive verification (Verus requires/ensures + representation invariant on in-place annotated real code; Kani bounded harness for restore)",
    ref="§4.1"),
  'C13': dict(
@@ -61,7 +62,8 @@ CHECKS = {
         "for token spans and the parser's two re-scan entry points, which Kani could not decide; a Verus contract on the real BytecodeVM::build_stack_trace (result == running activation, then every suspended caller "
         "innermost first, each once, each located/named/filed by its own chunk); a side battery (about 750 fault-planted programs x layouts x call shapes) links the layers to reported traces (testing, not proof).",
    note="Trusted: Verus+Z3, Kani/CBMC, Option::is_none_or std contract. NOT carried: parser token->AST spans, compile_* calling set_span with the node being compiled, "
-        "trace propagation across nested VMs, error formatting (DESIGN §4.2). build_stack_trace: iter().rev() rewritten to an index loop (rule R11, trusted), carried types opaque. checkpoint/restore and the token-span enumeration are BOUNDED stand-ins, never counted as proved.",
+        "trace propagation across nested VMs, error formatting (DESIGN §4.2). build_stack_trace: iter().rev() rewritten to an index loop (rule R11, trusted), carried types opaque. checkpoint/restore and the token-span enumeration are BOUNDED stand-ins, never counted as proved. "
+        "Two known findings are recorded: yield* leaves the delegating generator out of the trace; a lone CR is not counted as a line end.",
    technique="contract-based deductive verification (Verus postconditions + frame conditions on in-place annotated real code; Kani contracts for lexer stepping)",
    ref="§4.2"),
  'C15': dict(
